@@ -177,6 +177,33 @@ RACY_START = [
 ]
 
 
+# real-clock scenarios (f=3): receiver script | sender script.  Receiver: p poll, t receive with deadline now+5 s,
+# u .. now+1 s, n untimed, z<ms> sleep; sender: s send the next Message, z<ms> sleep.  They exercise the REAL timed
+# primitives (WaitCondition::WaitUntilAux, select() with a timeout), which the controlled scheduler replaces.
+TIMED_SCRIPTS = [
+    ("z300,p,t", "s,z600,s"),                 # a stale notification (Message 1 polled) then a timed wait: Message 2 must wake it
+    ("t", "z300,s"),                          # plain timed wait
+    ("z300,p,p,t", "s,s,z600,s"),             # two stale notifications
+    ("z300,p,t,t", "s,z600,s,z600,s"),        # the wake-up flushes the count: the next timed wait starts clean
+    ("z300,p,n", "s,z600,s"),                 # the same with an untimed wait
+    ("u,t", "z1500,s"),                       # a real timeout first, then a wake-up
+    ("u", ""),                                # nothing ever comes: B_TIMED_OUT at the deadline, not before
+    ("z300,t,t", "s,z700,s"),                 # the stale notification comes from a timed receive that found its Message at once
+    ("t,p,t", "z200,s,s,z600,s"),             # woken, one more polled, then waits again with a stale count
+    ("z300,n,t,u", "s,z600,s"),               # untimed receive first; ends with a timeout
+]
+
+
+def timed_cases():
+    out = []
+    for mode in "ws":
+        for d in "IO":
+            for (rs, ss) in TIMED_SCRIPTS:
+                body = ";".join(["r:" + o for o in rs.split(",") if o] + ["s:" + o for o in ss.split(",") if o])
+                out.append("m=%s,f=3,dir=%s|%s" % (mode, d, body))
+    return out
+
+
 EXPLORE_QUICK = [
     (2, "0:st;1:si:8;1:si:16;0:sd1", 2),
     (1, "0:st;0:si:10;0:rn;0:sd1", 2),
@@ -221,7 +248,10 @@ class CHECK(vlib.Check):
             "re-derives the same decisions from its own enabledness; the harness's ideal-FIFO / lost-wake-up oracle runs as well.  "
             "'fine' cases (f=1) additionally make every Mutex lock inside muscle a decision point (interleavings inside "
             "StartInternalThread, socket-pair creation, object pools) and are judged by the oracle alone; 'free' cases (f=2) run "
-            "without the scheduler against the real select()/condition variable (oracle + watchdog only).  "
+            "without the scheduler against the real select()/condition variable (oracle + watchdog only); a separate real-clock "
+            "stage runs 40 'timed' scenarios (f=3) concurrently through the REAL timed primitives (WaitUntilAux, select with a "
+            "timeout): stale notification + timed wait etc., both mechanisms and directions; a violation = Message lost/duplicated/"
+            "reordered, or a 5 s timed receive back only at its deadline although its Message was queued >= 1.5 s earlier, seen twice.  "
             "Non-trivial = the internal thread is started and at least one Message is sent to it.")
     quick_timeout = 900
 
@@ -292,6 +322,42 @@ class CHECK(vlib.Check):
                 out += [("exhaustive", l) for l in self._explored[1]]
                 self._explore_emitted = True
         return out
+
+    def extra_stage(self, ctx):
+        """real-clock stage: all the f=3 scenarios run concurrently in one harness process (wall time = the longest one,
+        ~6 s); the harness re-runs a failing scenario on its own and reports it only if it fails twice"""
+        import re, time
+        impl = ctx.get("impl")
+        if not impl or ctx.get("streams") == ["replay"]:
+            return
+        lines = timed_cases()
+        env = dict(os.environ); env.update(vlib.SAN_ENV)
+        t0 = time.time()
+        try:
+            p = subprocess.run([impl, "--timed-batch"], input="".join(l + "\n" for l in lines), stdout=subprocess.PIPE,
+                               stderr=subprocess.PIPE, text=True, env=env, timeout=300)
+            out, rc, err = p.stdout, p.returncode, p.stderr
+        except subprocess.TimeoutExpired as ex:
+            out, rc, err = (ex.stdout or ""), 124, "timeout"
+            if isinstance(out, bytes):
+                out = out.decode("utf8", "replace")
+        seen, nfail = set(), 0
+        for l in out.splitlines():
+            sp = l.split(" ", 1)
+            if not sp[0].isdigit() or len(sp) < 2:
+                continue
+            k = int(sp[0])
+            if sp[1] == "TIMED":
+                seen.add(k)
+            elif sp[1].startswith("ORACLE FAIL") and k < len(lines):
+                nfail += 1
+                ctx["failures"].append({"kind": "oracle", "signature": re.sub(r"\d+(\.\d+)?", "N", sp[1]), "case": lines[k],
+                                        "detail": {"oracle": sp[1], "side": "impl", "stage": "timed (real clock)"}})
+        if rc != 0 or len(seen) != len(lines):
+            ctx["failures"].append({"kind": "crash", "signature": "crash: timed stage rc=%s, %d of %d scenarios reported" % (rc, len(seen), len(lines)),
+                                    "case": lines[0], "detail": {"stderr": (err or "")[-2000:]}})
+        ctx["extra_coverage"] = {"timed_real_clock_scenarios": len(lines), "timed_stage_wall_s": round(time.time() - t0, 1),
+                                 "timed_stage_oracle_failures": nfail}
 
     def nontrivial(self, case):
         body = case.split("|", 1)[1]
